@@ -1064,6 +1064,65 @@ def odd_operands(F, mon):
     return ex
 
 
+def self_values(F, mon):
+    """C08 / C01: the value of an assignment is what it holds when the assignment is made - also when it is made of the
+    target's OWN live columns, rows or elements (swapping two columns, rotating rows, reversing a vector in place).
+    Python evaluates the right-hand side before it stores anything; the outcome is that of the same assignment with the
+    values copied out beforehand."""
+    ex = 0
+    cols0 = {"a": [1, 2, 3], "b": [10, 20, 30], "c": [7, 8, 9]}
+
+    def T():
+        return Table({k: list(v) for k, v in cols0.items()})
+    forms = {
+        "t[:, ('a','b')] = [t.b, t.a]": (lambda t: t.__setitem__((slice(None), ("a", "b")), [t.b, t.a]), {"a": cols0["b"], "b": cols0["a"]}),
+        "t[:, ('a','b','c')] = [t.c, t.a, t.b]": (lambda t: t.__setitem__((slice(None), ("a", "b", "c")), [t.c, t.a, t.b]), {"a": cols0["c"], "b": cols0["a"], "c": cols0["b"]}),
+        "t[:, 0:2] = [t.b, t.a]": (lambda t: t.__setitem__((slice(None), slice(0, 2)), [t.b, t.a]), {"a": cols0["b"], "b": cols0["a"]}),
+        "t[:, ('a','b')] = [t['b'], t['a']]": (lambda t: t.__setitem__((slice(None), ("a", "b")), [t["b"], t["a"]]), {"a": cols0["b"], "b": cols0["a"]}),
+        "t[:, ('a','b')] = (t.b, t.a)": (lambda t: t.__setitem__((slice(None), ("a", "b")), (t.b, t.a)), {"a": cols0["b"], "b": cols0["a"]}),
+        "t[:, ('a','b')] = t[('b','a')]": (lambda t: t.__setitem__((slice(None), ("a", "b")), t[("b", "a")]), {"a": cols0["b"], "b": cols0["a"]}),
+        "t[:, ('b','a')] = [t.a, t.b]": (lambda t: t.__setitem__((slice(None), ("b", "a")), [t.a, t.b]), {"a": cols0["b"], "b": cols0["a"]}),
+        "t[0:2, ('a','b')] = [t.b[0:2], t.a[0:2]]": (lambda t: t.__setitem__((slice(0, 2), ("a", "b")), [t.b[0:2], t.a[0:2]]),
+                                                      {"a": [10, 20, 3], "b": [1, 2, 30]}),
+        "t[0:2] = [t[1], t[0]]": (lambda t: t.__setitem__(slice(0, 2), [t[1], t[0]]), {"a": [2, 1, 3], "b": [20, 10, 30], "c": [8, 7, 9]}),
+        "t[0:2] = t[1:3]": (lambda t: t.__setitem__(slice(0, 2), t[1:3]), {"a": [2, 3, 3], "b": [20, 30, 30], "c": [8, 9, 9]}),
+        "t[1] = t[0]": (lambda t: t.__setitem__(1, t[0]), {"a": [1, 1, 3], "b": [10, 10, 30], "c": [7, 7, 9]}),
+        "t[::-1] = t": (lambda t: t.__setitem__(slice(None, None, -1), t), {"a": [3, 2, 1], "b": [30, 20, 10], "c": [9, 8, 7]}),
+        "t[:] = t[::-1]": (lambda t: t.__setitem__(slice(None), t[::-1]), {"a": [3, 2, 1], "b": [30, 20, 10], "c": [9, 8, 7]}),
+    }
+    for label, (write, changed) in forms.items():
+        t = T()
+        st, _, e = attempt(lambda: write(t))
+        ex += 1
+        got = {nm: list(c) for nm, c in zip(t.column_names(), t.cols())}
+        if st != "ok":
+            if got != cols0:
+                F.add("grid_atomic", {"assignment": label, "outcome": type(e).__name__}, got, cols0)
+            continue
+        want = dict(cols0, **changed)
+        if got != want:
+            F.add("grid_write", {"assignment": label, "how": "the value is made of the target's own columns / rows"}, got, want)
+    vforms = {
+        "v[0:2] = v[1:3]": (lambda v: v.__setitem__(slice(0, 2), v[1:3]), [2, 3, 3, 4]), "v[::-1] = v": (lambda v: v.__setitem__(slice(None, None, -1), v), [4, 3, 2, 1]),
+        "v[:] = v[::-1]": (lambda v: v.__setitem__(slice(None), v[::-1]), [4, 3, 2, 1]), "v[[0, 1, 2, 3]] = v[[3, 2, 1, 0]]": (lambda v: v.__setitem__([0, 1, 2, 3], v[[3, 2, 1, 0]]), [4, 3, 2, 1]),
+        "v[[3, 2, 1, 0]] = v": (lambda v: v.__setitem__([3, 2, 1, 0], v), [4, 3, 2, 1]), "v[1:] = v[:-1]": (lambda v: v.__setitem__(slice(1, None), v[:-1]), [1, 1, 2, 3]),
+        "v[mask] = v[other mask]": (lambda v: v.__setitem__([True, True, False, False], v[[False, False, True, True]]), [3, 4, 3, 4]),
+        "v[:] = (x for x in v)": (lambda v: v.__setitem__(slice(None), (x for x in reversed(list(v)))), [4, 3, 2, 1]),
+        "v[::-1] = iter(v)": (lambda v: v.__setitem__(slice(None, None, -1), iter(v)), [4, 3, 2, 1]),
+    }
+    for label, (write, want) in vforms.items():
+        v = Vector([1, 2, 3, 4], name="v")
+        st, _, e = attempt(lambda: write(v))
+        ex += 1
+        if st != "ok":
+            if list(v) != [1, 2, 3, 4]:
+                F.add("form_assign_atomic", {"assignment": label, "outcome": type(e).__name__}, list(v), [1, 2, 3, 4])
+            continue
+        if list(v) != want:
+            F.add("form_assign", {"assignment": label, "how": "the value is made of the target's own elements"}, list(v), want)
+    return ex
+
+
 def promotions(F, mon):
     """C18 / C03 / C01: an in-place write that changes a vector's kind or nullability (int -> float -> complex, bool -> int,
     date -> datetime, anything -> object, a first None) is still a write to THAT vector: its name, the table's column names
@@ -1150,7 +1209,7 @@ def promotions(F, mon):
 def main():
     out = sys.argv[1]
     F, mon = Fails(), Monitor()
-    ex = elementwise(F, mon) + indexing(F, mon) + relational(F, mon) + purity(F, mon) + grid2d(F, mon) + held_views(F, mon) + history_reads(F, mon) + odd_operands(F, mon) + promotions(F, mon)
+    ex = elementwise(F, mon) + indexing(F, mon) + relational(F, mon) + purity(F, mon) + grid2d(F, mon) + held_views(F, mon) + history_reads(F, mon) + odd_operands(F, mon) + promotions(F, mon) + self_values(F, mon)
     json.dump({"executed": ex, "failures": F.items, "per_clause": F.per, "skipped": {}, **mon.dump()}, open(out, "w"), default=str)
 
 
